@@ -511,7 +511,7 @@ func main() {
 	var cmds []*exec.Cmd
 	var files []string
 	for w := 0; w < workers; w++ {
-		fn := fmt.Sprintf("%s.w%d", a.Out, w)
+		fn := fmt.Sprintf("%s.%d.w%d", a.Out, os.Getpid(), w) // the pid keeps concurrent runs of the check apart
 		files = append(files, fn)
 		c := exec.Command(self, "--seed", fmt.Sprint(a.Seed), "--tier", a.Tier, "--out", fn,
 			"--programs", fmt.Sprint(nprog), "--worker", fmt.Sprintf("%d/%d", w, workers))
